@@ -53,6 +53,16 @@ func (i *syntaxChildMultiIdentifier) setNext(next syntaxNode) {
 	i.next = next
 }
 
+func (i *syntaxChildMultiIdentifier) setAccessorMode(mode bool) {
+	i.syntaxBasicNode.setAccessorMode(mode)
+	for _, identifier := range i.identifiers {
+		identifier.setAccessorMode(mode)
+	}
+	if i.isAllWildcard {
+		i.unionQualifier.setAccessorMode(mode)
+	}
+}
+
 func (i *syntaxChildMultiIdentifier) retrieveMap(
 	root interface{}, srcMap map[string]interface{}, container *bufferContainer) errorRuntime {
 
